@@ -225,6 +225,7 @@ func (fg *FG) block(b *ssa.BasicBlock, pkg *types.Package) {
 				t := env.tr(inv.E)
 				fg.assume(fmt.Sprintf("(=> %s %s)", r, t.T))
 			}
+			fg.headSt[b.Index] = st.clone()
 		} else {
 			for _, in := range b.Instrs {
 				if phi, ok := in.(*ssa.Phi); ok {
@@ -308,6 +309,20 @@ func (fg *FG) invStep(p, h *ssa.BasicBlock, st *State, pkg *types.Package) {
 	fg.curBlock = cb
 	for phi, v := range saved {
 		fg.vals[phi] = v
+	}
+	// step clauses: one iteration relates the state at the loop head (prev) to the state at the back-edge
+	if steps := fg.c.Steps[ord]; len(steps) > 0 {
+		hst := fg.headSt[h.Index]
+		if hst == nil {
+			fg.fail("internal: no head state for loop %d", ord)
+		}
+		penv := fg.envAt(hst, pkg, fg.localResolver(h, hst))
+		senv := fg.envAt(st, pkg, fg.localResolverAt(p, h, st))
+		senv.prev = penv
+		for k, sc := range steps {
+			t := senv.tr(sc.E)
+			fg.oblig("inv-step", fmt.Sprintf("step:loop%d#%s@b%d", ord, clauseName(sc, k), p.Index), sc.Tag, cond, t.T, sc.Src, fmt.Sprintf("%s:%d", sc.File, sc.Line))
+		}
 	}
 }
 
@@ -603,11 +618,18 @@ func (fg *FG) callFamilies(cc *ssa.CallCommon, fams map[string]bool) {
 
 // localResolver resolves source-level variable names at a loop header.
 func (fg *FG) localResolver(h *ssa.BasicBlock, st *State) func(string) (Val, bool) {
+	return fg.localResolverAt(nil, h, st)
+}
+
+// localResolverAt resolves names at the end of block at (nil: at the head of loop header h).
+func (fg *FG) localResolverAt(at *ssa.BasicBlock, h *ssa.BasicBlock, st *State) func(string) (Val, bool) {
 	return func(name string) (Val, bool) {
 		// 1. phi at the header
-		for _, in := range h.Instrs {
-			if phi, ok := in.(*ssa.Phi); ok && phi.Comment == name {
-				return fg.vals[phi], true
+		if at == nil {
+			for _, in := range h.Instrs {
+				if phi, ok := in.(*ssa.Phi); ok && phi.Comment == name {
+					return fg.vals[phi], true
+				}
 			}
 		}
 		// 2. latest definition dominating the header: phis in dominating blocks and debug refs
@@ -616,7 +638,11 @@ func (fg *FG) localResolver(h *ssa.BasicBlock, st *State) func(string) (Val, boo
 		bestIdx := -1
 		bestAddr := false
 		consider := func(v ssa.Value, blk *ssa.BasicBlock, idx int, isAddr bool) {
-			if blk == nil || !(blk.Dominates(h)) || (blk == h) {
+			if at == nil {
+				if blk == nil || !(blk.Dominates(h)) || (blk == h) {
+					return
+				}
+			} else if blk == nil || !blk.Dominates(at) {
 				return
 			}
 			if _, ok := fg.vals[v]; !ok {
